@@ -34,6 +34,11 @@ type Solver struct {
 	LastErr string
 }
 
+type nameKey struct {
+	s string
+	w int
+}
+
 type scopedEnt struct {
 	depth int
 	val   interface{}
@@ -121,9 +126,17 @@ func (s *Solver) Name(t *Term) *Term {
 	if t.isConst || len(t.s) <= nameThreshold {
 		return t
 	}
+	// the same expression gets the same name while its definition is in scope, so that
+	// recomputed values (e.g. a hash computed twice) stay syntactically equal
+	key := nameKey{t.s, t.w}
+	if v, ok := s.scoped[key]; ok {
+		n := v.val.(string)
+		return &Term{s: n, w: t.w, op: t.op, args: t.args, lin: t.lin, linC: t.linC}
+	}
 	s.nDef++
 	n := fmt.Sprintf("d!%d", s.nDef)
 	s.send(fmt.Sprintf("(define-fun %s () %s %s)", n, sortOf(t.w), t.s))
+	s.scoped[key] = scopedEnt{s.depth, n}
 	return &Term{s: n, w: t.w, op: t.op, args: t.args, lin: t.lin, linC: t.linC}
 }
 
